@@ -241,6 +241,7 @@ func (s *Store[H]) DeleteRange(ctx context.Context, from, to uint64) error {
 	if err != nil {
 		return err
 	}
+	verifYield("delete:synced")
 
 	// load current head and tail
 	head, err := s.Head(ctx)
